@@ -236,9 +236,21 @@ def path(c, job):
     exp = []
     if cfg["lifecycle"] == "run":
         env.N = cfg["N"]
-        s.run(0.02)
         n_it = cfg["N"]
-        exp = ([("on_enable", chosen)] + [("on_iteration", chosen)] * n_it + [("on_disable", chosen)]) if chosen else []
+        # optionally disable() is called from the per-iteration function in the middle of the period
+        dis_at = c.choose("disable_at", n_it + 1)  # 0: never
+        cnt = [0]
+
+        def iter_fn():
+            cnt[0] += 1
+            if cnt[0] == dis_at:
+                c.reach("disable-inside-run")
+                s.disable()
+
+        s.run(0.02, iter_fn)
+        if chosen:
+            k = n_it if dis_at == 0 else dis_at
+            exp = [("on_enable", chosen)] + [("on_iteration", chosen)] * k + [("on_disable", chosen)]
         c.reach("run-period")
     else:
         active = False
@@ -346,7 +358,7 @@ class C14(Spec):
 
     def reach_required(self, tier):
         return ["package-missing", "faulty-no-fms", "tolerated-with-fms", "healthy-package", "one-default", "dashboard-selects", "run-period",
-                "periodic-after-disable", "mode-chosen", "none-chosen", "two-iterations", "second-period", "start-without-disable"]
+                "periodic-after-disable", "mode-chosen", "none-chosen", "two-iterations", "second-period", "start-without-disable", "disable-inside-run"]
 
     def path_fn(self, c, job):
         path(c, job)
